@@ -121,7 +121,7 @@ def r71_r73(repo, ctx, q, func, fresh_required):
     nuc_stmt = None
     for st in mods:
         if isinstance(st, ast.AugAssign) and isinstance(st.op, ast.Add) and isinstance(st.target, ast.Subscript) \
-                and isinstance(st.target.slice, ast.Name) and isinstance(st.value, ast.Name) and st.value.id == 'nucRate' and 'nucRate' in pn:
+                and not isinstance(st.target.slice, (ast.Slice, ast.Tuple)) and isinstance(st.value, ast.Name) and st.value.id == 'nucRate' and 'nucRate' in pn:
             nuc_ok, nuc_stmt = True, st
     ctx.check(len(mods) == 1 and nuc_ok, 'R7.1', PB, fq, mods[0] if mods else func,
               'the only later change of the rate is one scalar-indexed += nucRate (nuclei enter exactly one class)',
@@ -129,9 +129,10 @@ def r71_r73(repo, ctx, q, func, fresh_required):
               construct='; '.join(U.src(m) for m in mods) or 'no nucleation term')
     # R7.3 nucleation class
     if nuc_stmt is not None:
-        idx = nuc_stmt.target.slice.id
         defs = single_defs(func)
-        e = defs.get(idx)
+        e = nuc_stmt.target.slice
+        if isinstance(e, ast.Name):
+            e = defs.get(e.id)
         good = False
         if e is not None and isinstance(e, ast.BinOp) and isinstance(e.op, ast.Sub) and U.is_const(e.right, 1):
             c = e.left
@@ -321,8 +322,9 @@ def r74(repo, ctx, func, F):
     # limiter precedes the difference
     F2, diffnode = face_array(func)
     if diffnode is not None:
-        last_store = max(s.lineno for s in stores)
-        ctx.check(diffnode.lineno > last_store, 'R7.4', PB, fq, diffnode, 'the difference is taken from the limited face array',
+        sq = U.seq(func)
+        last_store = max(sq[id(s)] for s in stores)
+        ctx.check(sq[id(diffnode)] > last_store, 'R7.4', PB, fq, diffnode, 'the difference is taken from the limited face array',
                   'the difference is taken before the face fluxes are limited')
 
 
